@@ -113,3 +113,8 @@ Proof. vm_compute. reflexivity. Qed.
 Example c24_example_oracle :
   ok_client (concat ex_pushes) (client_run 1 (chain (run 2 ex_pushes)) 2 [2; 1]) = true.
 Proof. vm_compute. reflexivity. Qed.
+(* the hypotheses of the theorems above hold for this client: crumb 2 exists and [2; 1] follows all 3 later crumbs *)
+Example c24_example_hyps :
+  let ch := chain (run 2 ex_pushes) in
+  (exists ci, nth_error ch 2 = Some ci /\ c_status ci = SWait) /\ length (skipn 3 ch) <= list_sum [2; 1].
+Proof. vm_compute. split; [eexists; split; reflexivity|repeat constructor]. Qed.
